@@ -63,6 +63,8 @@ def gen_plan(seed, tier="quick"):
     form = "cbin" if (reader == "Reader" and r.random() < 0.15) else "bin"
     fixture = r.choice(FIXS)
     frames = r.choice([1, 2, 3, 5, 17, 100, 999, r.randrange(1, 5000), r.randrange(1, 400)])
+    if nap <= 2 and r.random() < 0.12:
+        frames = r.choice([100001, 250000, 400003])      # long recording: a one-frame disagreement is < 1e-5 of it
     plan = {"property": PROP, "seed": seed, "reader": reader, "form": form, "fixture": fixture,
             "nap": nap, "ignore_warnings": r.random() < 0.3, "sort": r.random() < 0.5,
             "data_seed": r.randrange(1 << 30)}
@@ -83,7 +85,7 @@ def gen_plan(seed, tier="quick"):
     if meta == "stale":
         claimed = max(1, frames - r.choice([0, 1, 2, frames // 2]))
     elif meta == "more":
-        claimed = frames + r.choice([1, 2, 7, frames])
+        claimed = frames + (r.choice([1, 2, 7]) if frames > 50000 else r.choice([1, 2, 7, frames]))
     else:
         claimed = frames
     # growth: the reader is constructed when `bytes` bytes are there; the writer appends bursts
@@ -100,8 +102,13 @@ def gen_plan(seed, tier="quick"):
     if two_phase:
         for _ in range(r.choice([1, 1, 2])):
             pre_open.append(r.choice([1, frame - 1, frame, frame + 1, 5 * frame + 3, r.randrange(1, 40 * frame)]))
+    # the same path opened a second time in the same process (a later pipeline step, polling a
+    # growing file): optionally the writer appended in between
+    reopen = None
+    if r.random() < 0.3:
+        reopen = r.choice([0, 0, 1, frame - 1, frame, frame + 1, 7 * frame + 2])
     plan.update({"frames": frames, "bytes": total, "claimed": claimed, "meta": meta, "bursts": bursts,
-                 "two_phase": two_phase, "pre_open": pre_open})
+                 "two_phase": two_phase, "pre_open": pre_open, "reopen": reopen})
     return plan
 
 
@@ -145,7 +152,7 @@ def _run(plan, root):
     nc = nap + 1
     frame = nc * 2
     fs = world.meta_fs(plan["fixture"])
-    total_final = plan["bytes"] + sum(b for _, b in plan["bursts"]) + sum(plan.get("pre_open", []))
+    total_final = plan["bytes"] + sum(b for _, b in plan["bursts"]) + sum(plan.get("pre_open", [])) + (plan.get("reopen") or 0)
     nfr_stream = total_final // frame + 2
     data = world.make_data(plan["data_seed"], nfr_stream, nap)
     stream = data.tobytes()
@@ -264,6 +271,29 @@ def _run(plan, root):
             raise Violation("C11.O1", f"{sigbase}:{type(err).__name__}",
                             f"constructing {plan['reader']} raised {type(err).__name__}: {err} | bytes={B0}->{B1} frame={frame} claimed={plan['claimed']} | {tb.splitlines()[-3:]}")
         _oracle(plan, sr, stream, frame, nc, fs, B0, B1, log, probe, sigbase)
+        if plan.get("reopen") is not None and plan["form"] == "bin":
+            sr.close()
+            sr = None
+            nb = plan["reopen"]
+            if nb:
+                with open(binf, "ab") as g:
+                    g.write(stream[state["size"]: state["size"] + nb])
+                state["size"] += nb
+                fault("growth_before_second_opening")
+            B2 = state["size"]
+            probe("second_opening_same_path_same_process")
+            try:
+                sr = cls(target, ignore_warnings=plan["ignore_warnings"], sort=plan["sort"])
+            except Exception as e:
+                raise Violation("C11.O1", f"{sigbase}:second-open:{type(e).__name__}",
+                                f"second opening of the same path in the same process raised {type(e).__name__}: {e} | bytes={B2} frame={frame} claimed={plan['claimed']}")
+            log.append(["reopen", B2])
+            saved_bursts = plan["bursts"]
+            try:
+                plan["bursts"] = []
+                _oracle(plan, sr, stream, frame, nc, fs, B2, B2, log, probe, sigbase + ":second-open")
+            finally:
+                plan["bursts"] = saved_bursts
     except Violation as v:
         viol = {"clause": v.clause, "sig": v.sig, "detail": v.detail}
     finally:
